@@ -15,6 +15,7 @@
 Require Import GC.Base.Bytes GC.Schemes.Consts GC.Schemes.Keys GC.Schemes.Checks GC.Schemes.NewHash GC.Schemes.FreshBase
                GC.Schemes.FreshOther GC.Dispatch.Schemes GC.Dispatch.Dispatch GC.Dispatch.Builtin GC.Extract.Wrap
                GC.Schemes.ConcreteBase GC.Schemes.ConcretePlain GC.Schemes.ConcreteOther.
+Require GC.Kdf.SafeNtHash.
 
 Section Concrete.
 Variables MD5 SHA256 SHA512 MD4 : bytes -> bytes.
@@ -71,6 +72,18 @@ Theorem C01_nthash_concrete : forall pw, hash_contract MD4 16 -> (length pw <= 1
   exists h, newhash_nthash L0 KDF x_nt_encode pw = NOk h /\ check_nthash L0 KDF x_nt_encode h pw = VMatch /\
             prefix_of h = Some m_nthash_Prefix /\ In (m_nthash_Prefix, S_nthash) documented_registrations.
 Proof. exact (nthash_fresh_verifies_concrete_enc MD5 SHA256 SHA512 MD4 HMAC1 C bf_new bf_expand bf_encrypt B2). Qed.
+
+(* ... and in the scheme's own unit of measure: every password whose UTF-16LE text has at most 256 bytes (128 code
+   units: the exported MaxPasswordLength), however many bytes or characters the Go string has *)
+Theorem C01_nthash_concrete_units : forall pw, hash_contract MD4 16 -> len (x_nt_encode pw) <= L_nthash_MaxPw L0 ->
+  exists h, newhash_nthash L0 KDF x_nt_encode pw = NOk h /\ check_nthash L0 KDF x_nt_encode h pw = VMatch /\
+            prefix_of h = Some m_nthash_Prefix /\ In (m_nthash_Prefix, S_nthash) documented_registrations.
+Proof.
+  intros pw HH Hl.
+  apply (nthash_fresh_verifies_concrete MD5 SHA256 SHA512 MD4 HMAC1 C bf_new bf_expand bf_encrypt B2); [exact HH| |exact Hl].
+  unfold x_nt_encode, len. destruct (SafeNtHash.encodePassword_length_even pw) as (m & E). rewrite E.
+  rewrite Nat2Z.inj_mul. change (Z.of_nat 2) with 2. rewrite Z.mul_comm. apply Z_mod_mult.
+Qed.
 
 Theorem C01_sunmd5_concrete : forall stream pw rounds, hash_contract MD5 16 -> good_stream stream 8 ->
   len pw <= L_sunmd5_MaxPw L0 -> 0 <= rounds <= L_sunmd5_MaxRounds L0 ->
